@@ -1,7 +1,7 @@
 //! C10 — no definition is lost silently; warnings are local; Err carries nothing.
 use crate::asn::*;
 use crate::comp::{self, Cfg, Outcome};
-use crate::ev::{Ctx, Tier};
+use crate::ev::{Ctx, Failure, Tier};
 use crate::gen::{self, GenCfg};
 use crate::proj::{self, RItem, RModule};
 use crate::props::common::*;
@@ -496,6 +496,129 @@ fn classify(kind: &str) -> Option<&'static str> {
     }
 }
 
+// ---------------------------------------------------------------------------------------
+// the same accounting when the sources reach the compiler through the builder in every call
+// order: literal / single path / path iterator per module, `set_output_mode` before, between
+// or after them. A source that was handed over and is not in the result is a lost definition.
+/// `calls`: one of `literal`, `path`, `path-iterator:<k>` (takes k modules) per step, and `OUTPUT` once
+fn builder_eval(ms: &ModuleSet, calls: &[String], dir: &std::path::Path) -> Option<String> {
+    use crate::props::c20::{apply_op, Op, St};
+    use rasn_compiler::prelude::{Compiler, RasnBackend, TypescriptBackend};
+    let _ = std::fs::create_dir_all(dir);
+    let texts: Vec<String> = ms.modules.iter().map(|m| print(&ModuleSet { modules: vec![m.clone()] })).collect();
+    let path = |k: usize| {
+        let p = dir.join(format!("m{k}.asn"));
+        let _ = std::fs::write(&p, &texts[k]);
+        p
+    };
+    let mut ops: Vec<Op> = vec![];
+    let mut i = 0;
+    for c in calls {
+        if c == "OUTPUT" {
+            ops.push(Op::Output);
+        } else if i >= texts.len() {
+            break;
+        } else if c == "literal" {
+            ops.push(Op::Lit(texts[i].clone()));
+            i += 1;
+        } else if c == "path" {
+            ops.push(Op::Path(path(i)));
+            i += 1;
+        } else {
+            let k = c.rsplit(':').next().and_then(|x| x.parse::<usize>().ok()).unwrap_or(1).min(texts.len() - i).max(1);
+            ops.push(Op::Iter((i..i + k).map(path).collect()));
+            i += k;
+        }
+    }
+    let mut failure: Option<String> = None;
+    let mut st = St::<RasnBackend>::New(Compiler::<RasnBackend, _>::new());
+    for op in &ops {
+        st = apply_op(st, op, None);
+    }
+    if let St::Ready(c) = st {
+        if let Ok(Ok(r)) = comp::guarded(|| c.compile_to_string()) {
+            if let Ok(mods) = proj::project(&r.generated) {
+                let comp = Compiled { mods: mods.into_iter().map(|m| (m.name.clone(), m)).collect(), warnings: r.warnings.iter().map(|w| w.to_string()).collect() };
+                if let Some((kind, d)) = accounting(ms, &comp, &BTreeSet::new()) {
+                    if classify(&kind).is_none() {
+                        failure = Some(format!("rasn backend: {d}"));
+                    }
+                }
+            }
+        }
+    }
+    if failure.is_none() {
+        let mut st = St::<TypescriptBackend>::New(Compiler::<TypescriptBackend, _>::new());
+        for op in &ops {
+            st = apply_op(st, op, None);
+        }
+        if let St::Ready(c) = st {
+            if let Ok(Ok(r)) = comp::guarded(|| c.compile_to_string()) {
+                let w: Vec<String> = r.warnings.iter().map(|w| w.to_string()).collect();
+                if let Some((kind, d)) = accounting_ts(ms, &r.generated, &w) {
+                    if classify(&kind).is_none() {
+                        failure = Some(format!("TypeScript backend: {d}"));
+                    }
+                }
+            }
+        }
+    }
+    let _ = std::fs::remove_dir_all(dir);
+    failure
+}
+
+fn builder_leg(ctx: &mut Ctx, tier: Tier, seed: u64) {
+    let n = tier.pick(150, 1500);
+    let mut drv = crate::ev::Driver::new(seed, 1010, 2500);
+    let streams: Vec<Vec<u32>> = drv.draw(n).iter().map(|t| t.current()).collect();
+    let work = tempfile::tempdir().expect("tempdir");
+    let mut reported = 0;
+    for (idx, s) in streams.iter().enumerate() {
+        let ms = gen_set(s, &GenCfg { max_modules: 4, imports: false, ..gen_cfg() });
+        if ms.modules.len() < 2 {
+            continue;
+        }
+        let mut src = Src::new(&s[s.len() / 2..]);
+        let mut calls: Vec<String> = vec![];
+        let mut i = 0;
+        while i < ms.modules.len() {
+            match src.pick(3) {
+                0 => {
+                    calls.push("literal".into());
+                    i += 1;
+                }
+                1 => {
+                    calls.push("path".into());
+                    i += 1;
+                }
+                _ => {
+                    let k = 1 + src.pick(ms.modules.len() - i);
+                    calls.push(format!("path-iterator:{k}"));
+                    i += k;
+                }
+            }
+        }
+        let out_at = src.pick(calls.len() + 1);
+        calls.insert(out_at, "OUTPUT".into());
+        let shape = calls.join(" > ");
+        let failure = builder_eval(&ms, &calls, &work.path().join(format!("b{idx}")));
+        ctx.case(&format!("builder:{idx}:{shape}"), out_at < calls.len() - 1);
+        ctx.class("leg:builder-call-order");
+        ctx.class(&format!("builder:output-mode-{}", if out_at == 0 { "first" } else if out_at == calls.len() - 1 { "last" } else { "in-between" }));
+        if let Some(d) = failure {
+            ctx.class("fails:builder");
+            if reported < 3 {
+                reported += 1;
+                ctx.fail(Failure {
+                    finding: None,
+                    what: format!("sources handed over by the builder calls `{shape}`: {d}"),
+                    replay: json!({"kind": "c10-builder", "calls": calls, "model_json": serde_json::to_string(&ms).unwrap(), "sources": ms.modules.iter().enumerate().map(|(k, m)| json!({"name": format!("m{k}"), "text": print(&ModuleSet { modules: vec![m.clone()] })})).collect::<Vec<_>>()}),
+                });
+            }
+        }
+    }
+}
+
 pub fn eval(ms: &ModuleSet, stream_salt: u64) -> Verdict {
     let feats = features(ms);
     let base = match compile(ms) {
@@ -622,7 +745,8 @@ pub fn run(tier: Tier, seed: u64, replay: Option<String>) -> i32 {
                 RELATIVE-OID value) and a MACRO definition may be inserted; oracle: (accounting) every assignment has a binding under its mangled name in its \
                 own module block, or a warning names it, or an unnamed warning is left over for it; (locality) bindings of definitions that do not depend on a \
                 replaced one are token-identical to the unmodified compilation; one evaluation = one input with its three variants; non-trivial = a replacement \
-                with at least one surviving dependent and one surviving independent definition; distinct by input text"
+                with at least one surviving dependent and one surviving independent definition; distinct by input text; plus the builder leg: 2..4 modules handed \
+                over module by module as literal / path / path iterator with set_output_mode before, between or after them, the same accounting over the result of both backends"
         .into();
     ctx.assumptions = vec![
         "an unnamed warning (e.g. 'Real types are currently unsupported!') accounts for one missing definition".into(),
@@ -683,6 +807,18 @@ pub fn run(tier: Tier, seed: u64, replay: Option<String>) -> i32 {
                 text_repro(&mut ctx, &v);
                 return ctx.finish();
             }
+            if v["kind"].as_str() == Some("c10-builder") {
+                let ms: Option<ModuleSet> = v["model_json"].as_str().and_then(|t| serde_json::from_str(t).ok());
+                let calls: Vec<String> = v["calls"].as_array().map(|a| a.iter().filter_map(|x| x.as_str().map(|s| s.to_string())).collect()).unwrap_or_default();
+                if let Some(ms) = ms {
+                    let work = tempfile::tempdir().expect("tempdir");
+                    ctx.case(&format!("builder:replay:{}", calls.join(" > ")), true);
+                    if let Some(d) = builder_eval(&ms, &calls, &work.path().join("r")) {
+                        ctx.fail(Failure { finding: None, what: format!("sources handed over by the builder calls `{}`: {d}", calls.join(" > ")), replay: v.clone() });
+                    }
+                }
+                return ctx.finish();
+            }
         }
     }
     for (_p, v) in crate::ev::replay_files("C10") {
@@ -696,5 +832,6 @@ pub fn run(tier: Tier, seed: u64, replay: Option<String>) -> i32 {
         return if r == 2 { 2 } else { code };
     }
     run_generic(&mut ctx, &run, "c10");
+    builder_leg(&mut ctx, tier, seed);
     ctx.finish()
 }
